@@ -119,6 +119,11 @@ def cmd_check(args):
     print('property %s is not claimed (see MANIFEST.not_applicable)' % prop)
     return 2
   runner.preload()
+  rd = os.path.join(HERE, 'replays')
+  if os.path.isdir(rd):
+    for f in os.listdir(rd):
+      if f.startswith(prop + '-'):
+        os.unlink(os.path.join(rd, f))
   t0 = time.time()
   budget = args.budget or (40 if tier == 'quick' else 480)
   n_runs = args.runs or PLANS_RUNS(prop, tier)
